@@ -930,12 +930,44 @@ fn exec_mutex(case: &Sx, out_fail: &mut Vec<String>) -> Sx {
     Sx::L(vec![Sx::L(log), Sx::L(cl.iter().map(|c| enc_agg(0, &c.1)).collect())])
 }
 
+/// tag 5: a schedule of the mutex LTS executed label by label on a real MutexSink<Aggregate<Plain>>
+/// (every label is one critical section or a thread-local guard action, so program order = schedule)
+fn exec_mutex_seq(case: &Sx) -> Sx {
+    use metrique_aggregation::traits::RootSink;
+    type PSink = metrique_aggregation::sink::MutexSink<Aggregate<Plain>>;
+    let sink: PSink = PSink::new(Aggregate::default());
+    let mut guards: Vec<Option<metrique_aggregation::sink::CloseAndMergeOnDrop<Plain, PSink>>> = vec![];
+    let mut closes = vec![];
+    for a in case.arg(1).list() {
+        match a.tag() {
+            0 => RootSink::merge(&sink, to_plain(&dec_entry(a.arg(0))).close()),
+            4 => guards.push(Some(to_plain(&dec_entry(a.arg(0))).close_and_merge(sink.clone()))),
+            5 => {
+                if let Some(Some(gd)) = guards.get_mut(a.arg(0).num() as usize) {
+                    **gd = to_plain(&dec_entry(a.arg(1)));
+                }
+            }
+            6 => {
+                if let Some(slot) = guards.get_mut(a.arg(0).num() as usize) {
+                    drop(slot.take());
+                }
+            }
+            _ => closes.push(enc_agg(0, &test_metric(sink.clone()))),
+        }
+    }
+    closes.push(enc_agg(0, &test_metric(sink.clone())));
+    // guards still alive are dropped only now: what they merge is never closed, hence not observed
+    drop(guards);
+    Sx::L(closes)
+}
+
 pub fn exec(case: &Sx, fails: &mut Vec<String>) -> (Sx, bool) {
     let r = catch(|| match case.tag() {
         0 => exec_tree(case),
         3 => exec_worker_det(case, fails),
         2 => exec_mutex(case, fails),
         4 => exec_worker_thr(case, fails),
+        5 => exec_mutex_seq(case),
         _ => exec_embedded(case),
     });
     let nontrivial = match case.tag() {
@@ -951,6 +983,7 @@ pub fn exec(case: &Sx, fails: &mut Vec<String>) -> (Sx, bool) {
             let scs = if case.tag() == 2 { case.arg(1).list() } else { case.arg(3).list() };
             scs.iter().map(|sc| sc.list().iter().filter(|a| matches!(a.tag(), 0 | 4)).count()).sum::<usize>() >= 2
         }
+        5 => case.arg(1).list().iter().filter(|a| matches!(a.tag(), 0 | 6)).count() >= 2,
         _ => case.arg(1).list().len() >= 2,
     };
     (r.unwrap_or(sx::tag(99, vec![])), nontrivial)
@@ -1054,6 +1087,13 @@ fn describe(out: &mut Out, case: &Sx) {
             out.count(&format!("worker_det_tree_{}", tree_name(case.arg(1))));
             for a in sc {
                 out.count(match a.tag() { 0 => "wact_send", 1 => "wact_flush", 2 => "wact_clone", 3 => "wact_drop_handle", 4 => "wact_guard_new", 5 => "wact_guard_set", _ => "wact_guard_drop" });
+            }
+        }
+        5 => {
+            let ls = case.arg(1).list();
+            out.count(&format!("mutex_schedule_labels_{}", bucket(ls.len() as u64)));
+            for a in ls {
+                out.count(match a.tag() { 0 => "mlabel_merge", 4 => "mlabel_guard_new", 5 => "mlabel_guard_set", 6 => "mlabel_guard_drop", _ => "mlabel_close" });
             }
         }
         2 | 4 => {
@@ -1262,6 +1302,71 @@ pub fn run(ctx: &Ctx) {
         }
         emit(&mut out, sx::tag(3, vec![enc_shape(0), tree, sx::n(mode), Sx::L(sc)]));
     }
+    // mutex LTS schedules, executed label by label: exhaustive over a small alphabet, then random
+    {
+        let ea = |id: u64, c: u64, l: Option<u64>, d: u64| WEntry { id, name: vec![], shard: 0, sums: vec![c, id], lasts: vec![Some(id), l], dists: vec![vec![d], vec![], vec![d]] };
+        let alpha: Vec<Sx> = vec![
+            sx::tag(0, vec![enc_entry(&ea(1, 1, None, 3))]),
+            sx::tag(4, vec![enc_entry(&ea(2, 2, Some(7), 3))]),
+            sx::tag(5, vec![sx::n(0u64), enc_entry(&ea(3, 4, None, 1))]),
+            sx::tag(6, vec![sx::n(0u64)]),
+            sx::tag(7, vec![]),
+            sx::tag(6, vec![sx::n(1u64)]),
+        ];
+        let depth = if ctx.tier_thorough { 6 } else { 5 };
+        let mut idx: Vec<usize> = vec![];
+        loop {
+            out.count("mutex_schedule_exhaustive");
+            emit(&mut out, sx::tag(5, vec![enc_shape(0), Sx::L(idx.iter().map(|&i| alpha[i].clone()).collect())]));
+            let mut p = 0;
+            loop {
+                if p == idx.len() {
+                    idx.push(0);
+                    break;
+                }
+                idx[p] += 1;
+                if idx[p] < alpha.len() {
+                    break;
+                }
+                idx[p] = 0;
+                p += 1;
+            }
+            if idx.len() > depth {
+                break;
+            }
+        }
+        let names = g.names(1);
+        for _ in 0..(if ctx.tier_thorough { 2000 } else { 300 }) {
+            let len = *g.rng.pick(&[3u64, 10, 40, 120]) + g.rng.below(5);
+            let mut guards: Vec<bool> = vec![];
+            let mut ls = vec![];
+            for _ in 0..len {
+                let live: Vec<usize> = guards.iter().enumerate().filter(|(_, a)| **a).map(|(i, _)| i).collect();
+                match g.rng.below(16) {
+                    0..=5 => ls.push(sx::tag(0, vec![enc_entry(&g.entry(0, &names, 1, true))])),
+                    6..=8 => {
+                        ls.push(sx::tag(4, vec![enc_entry(&g.entry(0, &names, 1, true))]));
+                        guards.push(true);
+                    }
+                    9..=10 => {
+                        // sometimes a dead or non-existent guard: skipped by both sides
+                        let gi = if g.rng.chance(1, 8) || live.is_empty() { g.rng.below(guards.len() as u64 + 2) as usize } else { live[g.rng.below(live.len() as u64) as usize] };
+                        ls.push(sx::tag(5, vec![sx::n(gi as u64), enc_entry(&g.entry(0, &names, 1, true))]));
+                    }
+                    11..=13 => {
+                        let gi = if g.rng.chance(1, 8) || live.is_empty() { g.rng.below(guards.len() as u64 + 2) as usize } else { live[g.rng.below(live.len() as u64) as usize] };
+                        ls.push(sx::tag(6, vec![sx::n(gi as u64)]));
+                        if gi < guards.len() {
+                            guards[gi] = false;
+                        }
+                    }
+                    _ => ls.push(sx::tag(7, vec![])),
+                }
+            }
+            emit(&mut out, sx::tag(5, vec![enc_shape(0), Sx::L(ls)]));
+        }
+    }
+
     // real threads: 1-4 threads on one MutexSink<Aggregate<Plain>> / one WorkerSink
     let nt = if ctx.tier_thorough { 5000 } else { 600 };
     for i in 0..nt {
